@@ -1,5 +1,6 @@
 //! C18: `FileMode` conversions through the public API (`From<u16>`, `From<i32>`, `try_from_raw`,
-//! `to_result`, `raw_mode`, `file_type`, `permissions`, `u16::from`, `u32::from`, the three constructors).
+//! `to_result`, `raw_mode`, `file_type`, `permissions`, `u16::from`, `u32::from`, the three constructors), the public
+//! variant fields, and the derived `==` / `Hash`.
 use crate::common::*;
 use rpm::FileMode;
 
@@ -13,17 +14,48 @@ struct Obs {
     back32: u32,
     err: bool,
     stored: Option<i32>,
+    /// the `permissions` FIELD of the variant (pattern match, not the getter)
+    field: Option<u16>,
+    /// `FileMode::from(m.raw_mode()) == m`
+    rt: bool,
+    /// … and the two hash alike
+    heq: bool,
+    /// 0 not Invalid, 1 the reason `From<u16>` gives, 2 the reason `From<i32>` gives an out-of-range integer, 3 neither
+    reason: u8,
+}
+
+fn hash_of(m: &FileMode) -> u64 {
+    use std::hash::{Hash, Hasher};
+    let mut h = std::collections::hash_map::DefaultHasher::new();
+    m.hash(&mut h);
+    h.finish()
+}
+
+/// the two reasons are recognised by comparison with reference values, not by their text (a reworded message is not a finding)
+fn reason_class(reason: &str) -> u8 {
+    let of = |m: FileMode| match m {
+        FileMode::Invalid { reason, .. } => Some(reason),
+        _ => None,
+    };
+    if of(FileMode::from(0u16)) == Some(reason) {
+        1
+    } else if of(FileMode::from(70_000i32)) == Some(reason) {
+        2
+    } else {
+        3
+    }
 }
 
 fn observe(m: FileMode, err: bool) -> Obs {
-    let (kind, stored) = match m {
-        FileMode::Dir { .. } => (0, None),
-        FileMode::Regular { .. } => (1, None),
-        FileMode::SymbolicLink { .. } => (2, None),
-        FileMode::Invalid { raw_mode, .. } => (3, Some(raw_mode)),
+    let (kind, stored, field, reason) = match m {
+        FileMode::Dir { permissions } => (0, None, Some(permissions), 0),
+        FileMode::Regular { permissions } => (1, None, Some(permissions), 0),
+        FileMode::SymbolicLink { permissions } => (2, None, Some(permissions), 0),
+        FileMode::Invalid { raw_mode, reason } => (3, Some(raw_mode), None, reason_class(reason)),
         #[allow(unreachable_patterns)]
-        _ => (4, None),
+        _ => (4, None, None, 0),
     };
+    let again = FileMode::from(m.raw_mode());
     Obs {
         kind,
         raw: m.raw_mode(),
@@ -33,12 +65,16 @@ fn observe(m: FileMode, err: bool) -> Obs {
         back32: u32::from(m),
         err,
         stored,
+        field,
+        rt: again == m,
+        heq: hash_of(&again) == hash_of(&m),
+        reason,
     }
 }
 
 fn fmt(o: &Obs) -> String {
     format!(
-        "{},{:04x},{:04x},{:04x},{:04x},{:08x},{},{}",
+        "{},{:04x},{:04x},{:04x},{:04x},{:08x},{},{},{},{},{},{}",
         ["dir", "reg", "sym", "inv", "other"][o.kind as usize],
         o.raw,
         o.ftype,
@@ -49,7 +85,14 @@ fn fmt(o: &Obs) -> String {
         match o.stored {
             Some(n) => n.to_string(),
             None => "-".to_string(),
-        }
+        },
+        match o.field {
+            Some(f) => format!("{:04x}", f),
+            None => "-".to_string(),
+        },
+        o.rt as u8,
+        o.heq as u8,
+        ["-", "u", "o", "x"][o.reason as usize]
     )
 }
 
@@ -76,7 +119,13 @@ fn digest(h: u64, o: &Obs) -> u64 {
         Some(n) => n as u32 as u64,
         None => 1u64 << 32,
     };
-    mix(mix(mix(h, x1), x2), x3)
+    let x4 = match o.field {
+        Some(f) => f as u64,
+        None => 65536,
+    } + if o.rt { 131072 } else { 0 }
+        + if o.heq { 262144 } else { 0 }
+        + [0u64, 524288, 1048576, 0][o.reason as usize];
+    mix(mix(mix(mix(h, x1), x2), x3), x4)
 }
 
 /// Conversions the crate does NOT have today (`From<u32>`, `From<i64>`, … for `FileMode`) are probed at compile time with
